@@ -153,6 +153,20 @@ def pair_bases():
             base = {"prog": prog("1", ["y"]), "ord": order, "vars": vars_, "family": "F-pairs"}
             base["mutations"] = [("same", "", base), ("two-defaults", "X", {"prog": prog("2", dd_new), "ord": order})]
             out.append(base)
+    # an option defined in two places under different dependencies, only one of which holds: the stored default is
+    # kept wherever the option is there at all
+    for which in (0, 1):
+        def prog(xd):
+            d1 = mk("X", "int", prompt=Y, dep=S("A"), defaults=[{"v": C(xd), "c": Y}])
+            d2 = mk("X", "int", prompt=Y, dep=S("B"), defaults=[])
+            a = mk("A", "bool", prompt=Y, defaults=[{"v": ["y"] if which == 0 else ["n"], "c": Y}])
+            b = mk("B", "bool", prompt=Y, defaults=[{"v": ["n"] if which == 0 else ["y"], "c": Y}])
+            return [a, b, d1, mk("Z", "int", prompt=Y, defaults=[{"v": C(xd), "c": Y}]), d2]
+        order = [["s", "A"], ["s", "B"], ["s", "X"], ["s", "Z"]]
+        vars_ = [{"n": "A", "kind": "sym", "cands": [ktree.NOVAL]}]
+        base = {"prog": prog("1"), "ord": order, "vars": vars_, "family": "F-pairs"}
+        base["mutations"] = [("same", "", base), ("default-literal", "X", {"prog": prog("2"), "ord": order})]
+        out.append(base)
     for fwd in (1, 0):
         def prog(xd, chd):
             x = mk("XC", "int", prompt=Y, dep=S("M1"), defaults=[{"v": C(xd), "c": Y}])
@@ -238,6 +252,8 @@ def main(run):
     rng = random.Random(run.seed)
     lat = [p for p in lattice.prec_lattice(tier) if p["family"] in ("F-prec", "F-choice", "F-nest")]
     reg = [p for p in lattice.regress_lattice()]
+    # options defined in two places under different dependencies (F-multidef): int / bool with a prompt somewhere
+    reg += [p for p in lattice.multidef_lattice() if p["point"]["type"] in ("int", "bool") and (p["point"]["prompt1"] or p["point"]["prompt2"]) and not p["point"]["select"]][::3]
     if tier == "quick":
         bases = reg + pair_bases() + lat[::14] + ktree.generate(run.seed + 2100, 14)
         n_states, n_seq = 3, 2
